@@ -180,6 +180,7 @@ PROPS["C07"] = dict(
     subs=[
         R("C07.converge_after_faults", "kechan", "TestC07Converge", 160, 12000, shrink=5, quick=dict(checks=160, shards=4, timeout=600)),
         P("C07.prefix_tree", "kechan", "TestC07PrefixTree", qto=600, tto=3000),
+        P("C07.restart_points", "kechan", "TestC07RestartPoints", qto=600, tto=3000),
         R("C07.rekey_flow", "kechan", "TestC07RekeyFlow", 12, 800, shrink=5, quick=dict(checks=12, shards=4, timeout=600)),
         R("C07.no_idle_teardown", "kechan", "TestC07NoIdleTeardown", 8, 600, shrink=5, quick=dict(checks=8, shards=4, timeout=600)),
         R("C07.late_duplicates_then_idle", "kechan", "TestC07LateDuplicates", 48, 4000, shrink=5, quick=dict(shards=4, timeout=600)),
